@@ -15,7 +15,7 @@ fn with_nth(t: &mut Tm, n: &mut usize, f: &mut dyn FnMut(&mut Tm)) -> bool {
     *n -= 1;
     let mut kids: Vec<&mut Tm> = vec![];
     match t {
-        Tm::Lit(_) | Tm::Unit | Tm::Var(_) | Tm::Error(_) => {}
+        Tm::Lit(_) | Tm::Unit | Tm::Var(_) | Tm::Error(_) | Tm::HostFn(_) => {}
         Tm::Lam(_, b) => kids.push(b),
         Tm::App(a, bs) => {
             kids.push(a);
